@@ -1,6 +1,7 @@
 import Infretis.Model.RepexProto
 import Infretis.Model.RepexMicro
 import Infretis.Model.EngFactory
+import Infretis.Model.RepexSubmit
 /-
 Line protocol of the C03 driver: everything `Infretis.Repex.handle` answers, plus
   prepm  …   as `prep`, the answer followed by ` || ` and the sub-step trace of the call
@@ -12,6 +13,11 @@ Line protocol of the C03 driver: everything `Infretis.Repex.handle` answers, plu
                                                answers the state dump and the jobs
   mkengines <workers> <k> <k lists>            `create_engines` on `ensemble_engines`
   assign <pin> <names> <k> <k lists of ints>   `assign_engines(engine_occ, names, pin)` on a given table
+  lzalloc | lzprepbegin a | lzprepend a pin | lzsubmit a | lztake
+                                               the hand-over of work units (`Infretis.Repex.Submit.step`): a new md_items object,
+                                               prep_md_items begins / ends IN PLACE on object a (the job is the one the model's
+                                               `prep` just built for `pin`), the REFERENCE a is queued, a worker takes the head of
+                                               the queue and receives the object's content at THAT moment
 -/
 namespace Infretis.Repex.Micro
 open Infretis.Proto Infretis.Perm Infretis.Repex
@@ -143,18 +149,56 @@ def handleC03 (d : DState) (toks : List String) : DState × String :=
     | _, _ => (d, "bad-op")
   | _ => handle d toks
 
-partial def mainLoopC03 (h out : IO.FS.Stream) (d : DState) : IO Unit := do
+open Infretis.Repex.Submit in
+/-- the `lz…` ops on the hand-over state `q`; everything else goes to `handleC03` (a new `init` / `blankinit` empties `q`) -/
+def handleC03Q (d : DState) (q : Q) (toks : List String) : DState × Q × String :=
+  let fromStep (r : Except Err Q) (ans : Q → String) : DState × Q × String :=
+    match r with
+    | .error er => (d, q, showErr er)
+    | .ok q' => (d, q', ans q')
+  match toks with
+  | ["lzalloc"] => fromStep (step q .alloc) (fun _ => s!"a={q.heap.length}")
+  | ["lzprepbegin", a] =>
+    match parseNat? a with
+    | some a => fromStep (step q (.prepBegin a)) (fun _ => "ok")
+    | none => (d, q, "bad-op")
+  | ["lzprepend", a, pin] =>
+    match parseNat? a, parseNat? pin with
+    | some a, some pin =>
+      match d.jobs.find? (·.pin == pin) with
+      | some j => fromStep (step q (.prepEnd a j)) (fun _ => "ok")
+      | none => (d, q, showErr .key)
+    | _, _ => (d, q, "bad-op")
+  | ["lzsubmit", a] =>
+    match parseNat? a with
+    | some a => fromStep (step q (.submit a)) (fun q' => s!"ok q={q'.queue.length}")
+    | none => (d, q, "bad-op")
+  | ["lztake"] =>
+    match takeQ q with
+    | .error er => (d, q, showErr er)
+    | .ok (q', r) =>
+      (d, q', "recv " ++ (match r.got with | some j => showJob j | none => showErr .key) ++
+        s!" same={decide (r.got = r.sub)}")
+  | _ =>
+    let (d', ans) := handleC03 d toks
+    let q' : Q := match toks with
+      | "init" :: _ => {}
+      | "blankinit" :: _ => {}
+      | _ => q
+    (d', q', ans)
+
+partial def mainLoopC03 (h out : IO.FS.Stream) (d : DState) (q : Submit.Q) : IO Unit := do
   let line ← h.getLine
   if line.isEmpty then
     out.flush
     return ()
   let l := (line.dropEndWhile (fun c => c = '\n' || c = '\r')).toString
   let toks := (l.splitOn " ").filter (fun t => t ≠ "")
-  let (d', ans) := handleC03 d toks
+  let (d', q', ans) := handleC03Q d q toks
   out.putStrLn ans
-  mainLoopC03 h out d'
+  mainLoopC03 h out d' q'
 
 def c03Main : IO Unit := do
-  mainLoopC03 (← IO.getStdin) (← IO.getStdout) { s := emptySt }
+  mainLoopC03 (← IO.getStdin) (← IO.getStdout) { s := emptySt } {}
 
 end Infretis.Repex.Micro
